@@ -490,6 +490,22 @@ def check_timeout(fx, R, ft, cst):
         R.check(bool(ok), 'M3', 'RateMonitoring:constructed-no-data', 'the constructed state already counts as `has data` (%s)' % hd, 'constructed state has no data', fx.rel(ft['loc']), 'E-STATE')
     r1 = tp.fields.get(fld('rate_'))
     R.check(r1 == 0, 'M3', 'RateMonitoring::timeout:true-path', 'timeout path stores rate %s' % r1, 'rate <- 0 on timeout', fx.rel(ft['loc']), 'E-STATE')
+    # EVERY heartbeat more than 0.5 s after the last stamp reports a timeout, the second one of a silence too: the state the timeout path leaves must still satisfy what the predicate reads
+    hd_after = tp.fields.get(fld('hasData_'))
+    if any(s.name == 'this.hasData_' for s in state_syms):
+        touched_hd = hd_after is not None and not (isinstance(hd_after, sp.Symbol) and hd_after.name == 'this.hasData_')
+        if touched_hd and hd_after in (0, sp.false, sp.Integer(0)):
+            R.violated('M3', 'RateMonitoring::timeout:second-heartbeat', 'the timeout path clears hasData_, which the timeout predicate itself requires: after one reported timeout every later heartbeat of the same silence '
+                       '(no data stamp in between) is answered "no timeout" - the check-up\'s heartbeat callback then returns true (alive) while its report still says STALE; the statement has every heartbeat more '
+                       'than 0.5 s after the last stamp report a timeout', fx.rel(ft['loc']), 'E-STATE')
+        elif touched_hd and hd_after not in (1, sp.true, sp.Integer(1)):
+            R.undecided('M3', 'RateMonitoring::timeout:second-heartbeat', 'the timeout path stores %s into hasData_' % hd_after)
+        else:
+            R.holds('M3', 'RateMonitoring::timeout:second-heartbeat', 'the timeout path leaves the state the predicate reads (hasData_, last stamp) as it was: a second late heartbeat times out again', fx.rel(ft['loc']), 'E-STATE')
+    last_after = tp.fields.get(fld('lastDuration_', 'value_'))
+    if last_after is not None and not (isinstance(last_after, sp.Symbol) and last_after.name == 'this.lastDuration_.value_'):
+        R.violated('M3', 'RateMonitoring::timeout:moves-last-stamp', 'the timeout path rewrites the last data stamp (%s): the next heartbeat measures its 0.5 s from the heartbeat, not from the last DATA stamp, so a silence '
+                   'polled every 0.4 s times out once and never again' % str(last_after)[:80], fx.rel(ft['loc']), 'E-STATE')
     changed = [p for p, v in fp.fields.items() if not (isinstance(v, sp.Symbol) and v.name == '.'.join(p))]
     R.check(not changed, 'M3', 'RateMonitoring::timeout:false-path', 'an in-time heartbeat changes %s' % ['.'.join(p) for p in changed], 'in-time heartbeat changes nothing', fx.rel(ft['loc']), 'E-STATE')
 
